@@ -82,7 +82,7 @@ class Run:
         self.violations = []       # (obligation id / oracle, replay path, no_input)
         self.known_hits = []
         self.undecided = []
-        self.faults = []
+        self.faults = []; self.case_crashes = []
         self.bounded = []          # dicts per bounded oracle
         self.notes = []
         self.covers = 0
@@ -214,6 +214,8 @@ class Run:
     def add_bounded(self, name, res):
         """res: dict(evaluations, distinct_nontrivial, failures: [dict(key, text, recipe...)], samples, bound, rule, contract_evaluations)"""
         self.bounded.append(dict(res, name=name))
+        for c in res.get("crashes", [])[:3]:
+            self.case_crashes.append("bounded case of '%s' crashed: %s" % (name, c))
         for fl in res.get("failures", []):
             kf = self.known.lookup(self.pid, fl.get("key", ""))
             if kf is not None:
@@ -290,6 +292,10 @@ class Run:
         with open(os.path.join(ROOT, "evidence", self.pid + ".json"), "w") as f:
             json.dump(doc, f, indent=1, default=str)
         # exit code
+        if self.case_crashes and not self.violations:
+            self.faults.extend(self.case_crashes)
+        elif self.case_crashes:
+            for c in self.case_crashes: print("NOTE: " + c.replace("\n", " | ")[:400])
         if self.faults:
             for fl in self.faults:
                 print("CHECKER-FAULT: %s" % fl)
